@@ -106,7 +106,10 @@ def enumerate_schedules(project, n, w, seed, limit=4000):
     sigs = set()
     while count < limit:
         ch = _EnumChooser(forced, prefix, ("c17-enum", seed, project, n, w))
-        r = run(ch, 0, "quick")
+        try:
+            r = run(ch, 0, "quick")
+        finally:
+            seams.restore_all()  # as the driver does after every run: without it the patched wrappers nest run after run
         count += 1
         sigs.add(r["signature"])
         for v in r["violations"]:
